@@ -51,9 +51,22 @@ def showRes (r : Except SErr Bytes) : String :=
   | .ok b => "ok " ++ hexOfBytes b
   | .error e => "err " ++ showErr e
 
-def hexFns : List (String × String) := [("hx_post", "Post"), ("hx_patch", "Patch"), ("hx_put", "Put")]
+def hexFns : List (String × String) :=
+  [("hx_post", "Post"), ("hx_patch", "Patch"), ("hx_put", "Put"), ("hx_mw_id", "Post"), ("hx_mw_block", "Post")]
 
-/-- typed functions: name, input encoding row, `Display` of the decoder's error on empty input -/
+/-- the harness' `BlockLayer`: answers itself when the (hex text) body starts with `ff` -/
+def blockPred (r : Req) : Bool := match r.body with | 102 :: 102 :: _ => true | _ => false
+
+def hexLayers (fn : String) : List Middleware :=
+  if fn == "hx_mw_id" then [fun h => h]
+  else if fn == "hx_mw_block" then [mwBlock (sfeCodec noCustomError) blockPred "blocked|by middleware".toList]
+  else []
+
+/-- what the caller must see: the direct call, unless the middleware is documented to answer itself -/
+def hexExpected (fn : String) (a : Bytes) (direct : Except SErr Bytes) : Except SErr Bytes :=
+  if fn == "hx_mw_block" && a.head? == some 255 then .error ⟨middlewareKind, "blocked|by middleware".toList⟩ else direct
+
+/-- typed functions outside the cross product: name, input encoding row -/
 def typedFns : List (String × String × String) := [
   ("t_json", "Post", ""), ("t_geturl", "GetUrl", ""), ("t_posturl", "PostUrl", ""),
   ("t_deleteurl", "DeleteUrl", ""),
@@ -61,7 +74,21 @@ def typedFns : List (String × String × String) := [
   ("t_cbor", "Post", ""), ("t_msgpack", "Post", ""), ("t_postcard", "Post", ""), ("t_rkyv", "Post", ""),
   ("t_serdelite", "Post", ""), ("t_patchjson", "Patch", ""), ("t_putcbor", "Put", ""),
   ("t_json_cbor", "Post", ""), ("t_geturl_rkyv", "GetUrl", ""), ("t_postcard_msgpack", "Post", ""),
-  ("t_cbor_app", "Post", "") ]
+  ("t_cbor_app", "Post", ""), ("t_json_bin", "Post", ""),
+  ("t_default_path", "PostUrl", ""), ("t_prefix", "Post", ""), ("t_auto_name", "GetUrl", ""), ("t_mw_id", "Post", ""),
+  ("t_many", "PostUrl", ""), ("t_defaults", "GetUrl", ""), ("hand_echo", "Post", "") ]
+
+/-- input encoding row of a cross-product function `x_<in>_<out>` from its `<in>` token -/
+def crossIn (t : String) : Option String :=
+  if t == "geturl" then some "GetUrl" else if t == "posturl" then some "PostUrl"
+  else if t == "deleteurl" then some "DeleteUrl" else if t == "patchurl" then some "PatchUrl"
+  else if t == "puturl" then some "PutUrl"
+  else if ["json", "cbor", "msgpack", "postcard", "rkyv", "serdelite"].contains t then some "Post"
+  else if ["patchjson", "patchcbor", "patchmsgpack", "patchpostcard", "patchrkyv", "patchserdelite"].contains t then some "Patch"
+  else if ["putjson", "putcbor", "putmsgpack", "putpostcard", "putrkyv", "putserdelite"].contains t then some "Put"
+  else none
+
+def appFns : List String := ["t_cbor_app", "t_json_bin"]
 
 def isPrefixB : Bytes → Bytes → Bool
   | [], _ => true
@@ -96,6 +123,12 @@ def urlClass (a : Bytes) : String :=
   if containsSub (asciiB "\"list\":[]") a || containsSub (asciiB "\"nums\":[]") a then "urlenc-empty-vec"
   else if containsSub (asciiB "\"opt\":\"\"") a then "urlenc-some-empty"
   else "pipeline"
+
+/-- like `urlFixtureCodec` for `t_defaults`: `#[server(default)]` on the sequences and the option — an absent
+key is the default, so only `Some("")` ↦ `None` remains -/
+def urlDefaultsCodec : Codec Bytes where
+  enc := fun bs => .ok bs
+  dec := fun bs => .ok (replaceGo (asciiB "\"opt\":\"\"") (asciiB "\"opt\":null") 0 bs)
 
 def lookup3 (n : String) : List (String × String × String) → Option (String × String)
   | [] => none
@@ -186,6 +219,124 @@ def prefixKey {ε : Type} : List (Except ε Bytes) → Bytes × Option ε
   | .ok b :: rest => let (t, e) := prefixKey rest; (b ++ t, e)
   | .error e :: _ => ([], some e)
 
+def typedEncName (fn : String) : Option String :=
+  match lookup3 fn typedFns with
+  | some (e, _) => some e
+  | none =>
+    match fn.splitOn "_" with
+    | ["x", i, _] => crossIn i
+    | _ => none
+
+def findSub (pat : Bytes) : Nat → Bytes → Option Nat
+  | _, [] => if pat.isEmpty then some 0 else none
+  | i, b :: bs => if isPrefixB pat (b :: bs) then some i else findSub pat (i + 1) bs
+
+/-- everything up to and including the last occurrence of `pat` (the whole string if there is none) -/
+def truncAfterLast (pat s : Bytes) : Bytes :=
+  match findSub pat.reverse 0 s.reverse with
+  | some i => s.take (s.length - i)
+  | none => s
+
+/-- the path the harness' functions are registered under (`endpoint = "<fn>"`, prefix `/api`) -/
+def fnPathOf (fn : String) : Option Bytes :=
+  if fn == "t_prefix" || fn == "t_default_path" || fn.startsWith "x_" then none
+  else some (asciiB ("/api/" ++ fn))
+
+/-- one typed or hex call: `form = none` is the client call, `some (path, referer)` the `<form>` fallback -/
+def runFixture {E : Type} (ie : InEnc) (ec : ErrCodec E) (ci co : Codec Bytes) (layers : List Middleware)
+    (showE : E → String) (decodeUrl : Bytes → E) (body : Bytes → Except E Bytes) (expected : Except E Bytes)
+    (a : Bytes) (cls : String) (truncLoc : Bool) (form : Option (Bytes × Option Bytes)) : String :=
+  let showR := fun (r : Except E Bytes) => match r with
+    | .ok b => "ok " ++ hexOfBytes b
+    | .error e => "err " ++ showE e
+  match form with
+  | none =>
+    let remote := showR (remoteCallMw ie ec ci co layers body a)
+    s!"{remote} ## {verdictEq remote (showR expected) cls}"
+  | some (path, referer) =>
+    match ci.enc a with
+    | .error _ => "bad-op"
+    | .ok data =>
+      let fr := runOnServerForm ie ec ci co body path referer (intoReq ie data)
+      let pairs := if hasScheme fr.location then Url.formParse ((splitUrl fr.location).query.getD []) else []
+      let errv := queryGetLast errKey pairs
+      let pathv := queryGetLast pathKey pairs
+      let decoded := errv.map fun v => showE (decodeUrl v)
+      let shownLoc := if truncLoc then truncAfterLast (asciiB "__err=") fr.location else fr.location
+      let good := fr.status == 302 &&
+        (match expected with
+          | .error e => decoded == some (showE e) && pathv == some path
+          | .ok _ =>
+            errv.isNone && pathv.isNone &&
+            (match referer with
+              | none => fr.location == [47]
+              | some r =>
+                if hasScheme r then
+                  pairs == ((Url.formParse ((splitUrl r).query.getD [])).filter fun kv => kv.1 ≠ pathKey ∧ kv.1 ≠ errKey) &&
+                  (splitUrl fr.location).pre == (splitUrl r).pre && (splitUrl fr.location).frag == (splitUrl r).frag
+                else fr.location == r))
+      let noRef := match referer with | none => true | some r => !hasScheme r
+      let isErr := match expected with | .error _ => true | .ok _ => false
+      let cls' := if cls != "pipeline" then cls else if noRef && isErr then "form-no-referer" else "form-fallback"
+      let ds := match decoded with | some d => d | none => "none"
+      let ps := match pathv with | some p => hexOfBytes p | none => "none"
+      s!"{fr.status} {hexOfBytes shownLoc} {ds} {ps} ## {if good then "ok" else "fail " ++ cls'}"
+
+def showAppE (e : AppE) : String :=
+  match e with
+  | .app j => "app:" ++ hexOfBytes j
+  | .sfe k m => "appsfe:" ++ String.ofList k ++ ":" ++ hexOfStr m
+
+def appDecodeUrl (v : Bytes) : AppE :=
+  match b64Decode v with
+  | .ok bs => appCodec.de bs
+  | .error e => .sfe deserializationKind (b64ErrMsg e)
+
+/-- `tcall` / `form` on a typed function -/
+def typedOp (fn mode : String) (ah : String) (rest : List String) (form : Option (Option Bytes)) : String :=
+  match typedEncName fn, bytesOfHex ah with
+  | some encName, some a =>
+    match findEnc encName inputEncodings with
+    | none => "bad-op"
+    | some ie =>
+      let isUrl := ie.decErrKind == argsKind
+      let cls := if !ie.slotsAgree then "slot-mismatch"
+        else if fn == "t_defaults" then (if containsSub (asciiB "\"opt\":\"\"") a then "urlenc-some-empty" else "pipeline")
+        else if isUrl then urlClass a else "pipeline"
+      let ci := if fn == "t_defaults" then urlDefaultsCodec else if isUrl then urlFixtureCodec [] else opaqueCodec []
+      let co := opaqueCodec []
+      let form? : Option (Option (Bytes × Option Bytes)) :=
+        match form with
+        | none => some none
+        | some r => (fnPathOf fn).map fun p => some (p, r)
+      match form? with
+      | none => "bad-op"
+      | some fm =>
+        if appFns.contains fn then
+          let body? : Option (Bytes → Except AppE Bytes) :=
+            match mode, rest with
+            | "echo", [] => some fun x => .ok x
+            | "failapp", [jh] => (bytesOfHex jh).map fun j => fun _ => .error (.app j)
+            | _, _ => none
+          match body? with
+          | some body => runFixture ie appCodec ci co [] showAppE appDecodeUrl body (body a) a cls true fm
+          | none => "bad-op"
+        else
+          let body? : Option (Bytes → Except SErr Bytes) :=
+            match mode, rest with
+            | "echo", [] => some fun x => .ok x
+            | "fail", [variant, mh] =>
+              match strOfHex mh with
+              | some m => (mkErr "n" variant m).map fun e => fun _ => .error e
+              | none => none
+            | _, _ => none
+          match body? with
+          | some body =>
+            runFixture ie (sfeCodec noCustomError) ci co (if fn == "t_mw_id" then [fun h => h] else []) showErr
+              (decodeErrUrl noCustomError) body (body a) a cls false fm
+          | none => "bad-op"
+  | _, _ => "bad-op"
+
 def step (_ : Unit) (line : String) : Unit × String :=
   let out :=
     match words line with
@@ -239,49 +390,43 @@ def step (_ : Unit) (line : String) : Unit × String :=
     | ["call", fn, ah] =>
       match hexEnc fn, bytesOfHex ah with
       | some ie, some a =>
-        let cu := noCustomError
-        let remote := showRes (remoteCall ie (sfeCodec cu) hexCodec hexCodec hexBody a)
-        let direct := showRes (hexBody a)
-        s!"{remote} ## {verdictEq remote direct "pipeline"}"
+        runFixture ie (sfeCodec noCustomError) hexCodec hexCodec (hexLayers fn) showErr (decodeErrUrl noCustomError)
+          hexBody (hexExpected fn a (hexBody a)) a "pipeline" false none
       | _, _ => "bad-op"
-    | "tcall" :: fn :: mode :: ah :: rest =>
-      match lookup3 fn typedFns, bytesOfHex ah with
-      | some (encName, emptyErr), some a =>
-        match findEnc encName inputEncodings with
-        | none => "bad-op"
-        | some ie =>
-          let isUrl := ie.decErrKind == argsKind
-          let cls := if !ie.slotsAgree then "slot-mismatch" else if isUrl then urlClass a else "pipeline"
-          let ci := if isUrl then urlFixtureCodec emptyErr.toList else opaqueCodec emptyErr.toList
-          let co := opaqueCodec []
-          if fn == "t_cbor_app" then
-            let body? : Option (Bytes → Except AppE Bytes) :=
-              match mode, rest with
-              | "echo", [] => some fun x => .ok x
-              | "failapp", [jh] => (bytesOfHex jh).map fun j => fun _ => .error (.app j)
-              | _, _ => none
-            match body? with
-            | some body =>
-              let remote := showAppRes (remoteCall ie appCodec ci co body a)
-              let direct := showAppRes (body a)
-              s!"{remote} ## {verdictEq remote direct cls}"
-            | none => "bad-op"
-          else
-            let body? : Option (Bytes → Except SErr Bytes) :=
-              match mode, rest with
-              | "echo", [] => some fun x => .ok x
-              | "fail", [variant, mh] =>
-                match strOfHex mh with
-                | some m => (mkErr "n" variant m).map fun e => fun _ => .error e
-                | none => none
-              | _, _ => none
-            match body? with
-            | some body =>
-              let remote := showRes (remoteCall ie (sfeCodec noCustomError) ci co body a)
-              let direct := showRes (body a)
-              s!"{remote} ## {verdictEq remote direct cls}"
-            | none => "bad-op"
+    | "tcall" :: fn :: mode :: ah :: rest => typedOp fn mode ah rest none
+    | "form" :: fn :: refh :: rest =>
+      let ref? : Option (Option Bytes) := if refh == "none" then some none else (bytesOfHex refh).map some
+      match ref?, rest with
+      | some referer, [ah] =>
+        match hexEnc fn, bytesOfHex ah, fnPathOf fn with
+        | some ie, some a, some path =>
+          if fn == "hx_mw_block" then "bad-op" else
+          runFixture ie (sfeCodec noCustomError) hexCodec hexCodec [] showErr (decodeErrUrl noCustomError)
+            hexBody (hexBody a) a "pipeline" false (some (path, referer))
+        | _, _, _ => "bad-op"
+      | some referer, mode :: ah :: more => typedOp fn mode ah more (some referer)
       | _, _ => "bad-op"
+    | ["ncall", fn] =>
+      let r? : Option (InEnc × Except SErr Bytes) :=
+        if fn == "noargs_get" then (findEnc "GetUrl" inputEncodings).map fun ie => (ie, .ok (asciiB "pong|\n"))
+        else if fn == "noargs_post" then (findEnc "PostUrl" inputEncodings).map fun ie => (ie, .ok (asciiB "pong|\n"))
+        else if fn == "noargs_cbor" then
+          (findEnc "Post" inputEncodings).map fun ie => (ie, .error ⟨"ServerError".toList, "always|fails".toList⟩)
+        else none
+      match r? with
+      | some (ie, result) =>
+        let remote := showRes (remoteCall ie (sfeCodec noCustomError) unitCodec (opaqueCodec []) (fun _ => result) ())
+        s!"{remote} ## {verdictEq remote (showRes result) "pipeline"}"
+      | none => "bad-op"
+    | ["path", _fn, ph, eh, nh] =>
+      let pfx? : Option (Option Str) := if ph == "default" then some none else (strOfHex ph).map some
+      let ep? : Option (Option Str) := if eh == "none" then some none else (strOfHex eh).map some
+      match pfx?, ep?, strOfHex nh with
+      | some pfx, some ep, some name =>
+        -- the hash suffix depends on the build directory: both sides print the path without it
+        let path := serverFnPath pfx ep name []
+        s!"{hexOfStr path} registered ## ok"
+      | _, _, _ => "bad-op"
     | ["canned", fn, st, bh, ah] =>
       match hexEnc fn, st.toNat?, bytesOfHex bh, bytesOfHex ah with
       | some ie, some status, some b, some a =>
@@ -325,7 +470,7 @@ def step (_ : Unit) (line : String) : Unit × String :=
       | _, _ => "bad-op"
     | "corrupt" :: fn :: side :: spec :: _ =>
       -- third-party decoders on corrupted bytes: outside the model (testing); only the op shape is checked
-      match lookup3 fn typedFns, mutate spec [] with
+      match typedEncName fn, mutate spec [] with
       | some _, some _ => if side == "req" || side == "res" then "done ## ok" else "bad-op"
       | _, _ => "bad-op"
     | ["streamout", kind, itemsH] =>
